@@ -1430,6 +1430,9 @@ class QueryBuilder(Selectable, Term):  # type:ignore[misc]
         has_reference_to_foreign_table = self._references_foreign_table()
         has_update_from = self._update_table and self._from
 
+        # whether the embedding position asked for this query's alias; the clauses inside the
+        # query decide about alias printing themselves
+        with_alias = ctx.with_alias
         ctx = ctx.copy(
             with_namespace=any(
                 [
@@ -1439,7 +1442,8 @@ class QueryBuilder(Selectable, Term):  # type:ignore[misc]
                     has_reference_to_foreign_table,
                     has_update_from,
                 ]
-            )
+            ),
+            with_alias=False,
         )
 
         if self._update_table:
@@ -1539,7 +1543,7 @@ class QueryBuilder(Selectable, Term):  # type:ignore[misc]
         if self._on_conflict:
             querystring += self._on_conflict_sql(ctx)
             querystring += self._on_conflict_action_sql(ctx)
-        if ctx.with_alias:
+        if with_alias:
             return format_alias_sql(querystring, self.alias, ctx)
 
         return querystring
